@@ -296,6 +296,7 @@ func checkC08(ctx *Ctx, r *Report) {
 	c05GeneratedNamesUnique(ctx, r)
 	c01StrictDecoderNulls(ctx, r)
 	c08CueConstraintSiblings(ctx, r)
+	c09CueNumberConstraints(ctx, r)
 	c08TypeListThroughWalkers(ctx, r)
 	c08UnionReuseComparesBranches(ctx, r)
 	c10CueEmptyCollectionDefault(ctx, r)
